@@ -17,8 +17,8 @@
 //!   `inventory-lists-repo-made-private` (the repository was public earlier in the case and was made private
 //!   while the node ran: announcements created before the next `initialize` — also when they are sent or
 //!   replayed later — still list it), `inventory-lists-private-repo` (it was never public, OR the announcement
-//!   was created at or after an `initialize` at which the repository was already private: `initialize` must
-//!   clean the listing up).
+//!   was created at or after an `initialize` at which the repository was in storage and already private:
+//!   `initialize` must clean the listing up).
 
 #[path = "../../c10/src/engine.rs"]
 mod engine;
@@ -103,13 +103,18 @@ fn oracle(recs: &[StepRec], tags: &mut Vec<String>) -> Vec<(String, String)> {
                     let private = r.repos.get(rid).map(|s| s.private).unwrap_or(false);
                     if private {
                         // Known window: the repository was listed while public and made private while the node
-                        // ran — until the next `initialize`. An inventory announcement created at or after an
-                        // `initialize` at which the repository was already private (and stayed so until the
-                        // announcement was created) must not list it: that is a violation.
+                        // ran — until the next `initialize` that finds it in storage. An inventory announcement
+                        // created at or after an `initialize` at which the repository was in storage and already
+                        // private (and stayed private until the announcement was created) must not list it:
+                        // that is a violation.
                         let c = created_at.get(&w.ann.ts).cloned().flatten();
                         let after_restart = c.and_then(|c| {
                             (0..=c).rev().find(|k| matches!(recs[*k].op, Op::Restart)).filter(|k| {
-                                (*k..=c).all(|m| recs[m].repos.get(rid).map(|s| s.private).unwrap_or(false))
+                                // `initialize` can only clean up what it can see: the repository must have been
+                                // in storage then (a repository that left storage keeps its local routing
+                                // entry; the node cannot learn that it became private)
+                                recs[*k].repos.get(rid).map(|s| s.present).unwrap_or(false)
+                                    && (*k..=c).all(|m| recs[m].repos.get(rid).map(|s| s.private).unwrap_or(false))
                             })
                         });
                         let class = if after_restart.is_some() {
@@ -359,20 +364,51 @@ fn gen_case(rng: &mut Rng, max_ops: u64) -> String {
                     connected.push(p);
                 }
             }
-            85..=89 => {
+            85..=88 => {
                 // AddInventory: only for public repositories (what `rad` does)
                 if !repos[rid as usize].private {
                     toks.push(format!("i,{rid}"));
                 }
             }
-            90..=93 => {
+            89..=92 => {
                 let r = &repos[rid as usize];
                 if r.present && !connected.is_empty() {
                     toks.push(format!("f,{rid},{},{},{}", rng.pick(&connected), rng.bool() as u8, rng.chance(3, 4) as u8));
                 }
             }
-            94..=96 => toks.push(format!("{},{rid}", if rng.bool() { "z" } else { "u" })),
-            97 => toks.push("I".into()),
+            93..=94 => toks.push(format!("{},{rid}", if rng.bool() { "z" } else { "u" })),
+            95..=97 => {
+                if rng.chance(1, 3) {
+                    toks.push("I".into())
+                } else {
+                    // a listed public repository is made private, then the node is re-initialised: nothing
+                    // created from then on may list it (connect / announce task / replay observe it)
+                    let r = &mut repos[rid as usize];
+                    if r.present {
+                        if r.private {
+                            r.private = false;
+                            toks.push(repo_tok(r));
+                        }
+                        toks.push(format!("z,{rid}"));
+                        toks.push(format!("i,{rid}"));
+                        r.private = true;
+                        toks.push(repo_tok(r));
+                        toks.push("R".into());
+                        if rng.bool() {
+                            clock += 3_600_000;
+                            toks.push("e,3600000".into());
+                        }
+                        let p = rng.range(1, 3);
+                        if connected.contains(&p) {
+                            toks.push(format!("d,{p}"));
+                        } else {
+                            connected.push(p);
+                        }
+                        toks.push(format!("c,{p},i"));
+                        toks.push(format!("s,{p},*,0,{I64MAX}"));
+                    }
+                }
+            }
             _ => {
                 ts += 1;
                 let p = if connected.is_empty() { 1 } else { *rng.pick(&connected) };
